@@ -95,7 +95,7 @@ class Models:
             import fractions, sys as _sys
             t = TY.of_node(n)
             if t.kind == 'real':
-                if name == 'infinity': raise Unsupported('numeric_limits::infinity() has no value in exact real arithmetic (at %s)' % e.where(n, fr))
+                if name == 'infinity': return self.fn_infinity(st, rd, args, n, fr)
                 mx = fractions.Fraction(_sys.float_info.max)
                 return z3.RealVal(mx if name == 'max' else (-mx if name == 'lowest' else fractions.Fraction(_sys.float_info.min)))
             if t.kind == 'int':
@@ -450,6 +450,61 @@ class Models:
         if len(normal) != 1: raise Unsupported('for_each with abrupt exits')
         st.assign_from(normal[0])
         return f
+
+    def fn_accumulate(self, st, rd, args, n, fr):
+        """std::accumulate(first, last, init, op) over a vector: a loop; needs a loop contract registered under 'accumulate#k'"""
+        e = self.e
+        b = e.rv(args[0], st, fr); en = e.rv(args[1], st, fr); init = e.rv(args[2], st, fr)
+        if len(args) < 4: raise Unsupported('std::accumulate without operation')
+        f = e.rv(args[3], st, fr)
+        if not (isinstance(b, Iter) and isinstance(f, Closure) and b.cty.kind == 'vector'): raise Unsupported('accumulate form')
+        k = st.ghost.get('accumulate_count', 0); st.ghost['accumulate_count'] = k + 1
+        lc = e.specs.loop_contract(fr.qname, 'accumulate#%d' % k) if e.specs else None
+        if lc is None: raise Unsupported('std::accumulate #%d in %s has no loop contract (at %s)' % (k, fr.qname, e.where(n, fr)))
+        idx_key = 'rangeidx!%s' % n['id']; acc_key = 'acc!%s' % n['id']
+        st.env[idx_key] = b.idx
+        rt = TY.of_node(n)
+        if rt.kind == 'real' and is_z3(init) and z3.is_int(init): init = z3.ToReal(init)
+        if rt.kind == 'int' and is_z3(init) and z3.is_real(init): init = e.float_to_int(st, init, rt, n, fr)
+        st.env[acc_key] = init
+        e.var_names[acc_key] = 'accumulator'
+        ety = b.cty.args[0]
+        vec = ObjLV(b.vref, b.cty)
+        call_node = {'kind': 'AccumulateBody', 'id': 'acc!' + str(n['id']), '_file': n.get('_file'), '_line': n.get('_line'),
+                     'inner': [{'kind': 'DeclRefExpr', 'type': {'qualType': 'double'}, 'referencedDecl': {'kind': 'VarDecl', 'id': acc_key, 'name': 'accumulator'}}]}
+
+        def run_body(nn, s, frr):
+            i = s.env[idx_key]
+            arg = e.vec_read(s, vec.ref, i, ety) if not e.is_value_type(ety) else ElemLV(vec.ref, i, ety)
+            r = e.call_closure_values(f, [s.env[acc_key], arg], s, frr, n)
+            if isinstance(r, LVS) and not isinstance(r, ObjLV): r = e.load(s, r)
+            if rt.kind == 'int' and is_z3(r) and z3.is_real(r): r = e.float_to_int(s, r, rt, n, frr)
+            s.env[acc_key] = r
+            return [(s, None)]
+        e.st_AccumulateBody = run_body
+        outs = lc.apply(e, n, st, fr, lambda s: s.env[idx_key] < en.idx, lambda s: s.env.__setitem__(idx_key, s.env[idx_key] + 1), call_node, True, None,
+                        {'index_key': idx_key, 'container': vec, 'acc_key': acc_key})
+        normal = [s for (s, o) in outs if o is None]
+        if len(normal) != 1: raise Unsupported('accumulate with abrupt exits')
+        st.assign_from(normal[0])
+        return st.env[acc_key]
+
+    def fn_swap(self, st, rd, args, n, fr):
+        e = self.e
+        a = e.lv(args[0], st, fr); b = e.lv(args[1], st, fr)
+        va = e.load(st, a); vb = e.load(st, b)
+        e.store(st, a, vb); e.store(st, b, va)
+        return None
+
+    def fn_infinity(self, st, rd, args, n, fr):
+        import fractions, sys as _sys
+        e = self.e
+        inf = e.uf('INF', R) if False else z3.Real('INF')
+        ax = inf > z3.RealVal(fractions.Fraction(_sys.float_info.max))
+        e.axiom_ids.add(ax.get_id())
+        if not any(p is ax or (is_z3(p) and p.get_id() == ax.get_id()) for p in st.pc): st.pc.append(ax)
+        self.used('numeric_limits<double>::infinity(): a real constant INF greater than DBL_MAX (all finite doubles compare below it)')
+        return inf
 
     def fn_front_inserter(self, st, rd, args, n, fr):
         return Rec('front_inserter', {'dst': self.e.ev(args[0], st, fr)})
